@@ -90,6 +90,15 @@ def main(tier):
                 unknown.append(d)
     total = sum(s["behaviours"] for s in summ.values())
     ev.parts["filt_v3"]["deviations_attributed_elsewhere"] = len(devs) - nrel
+    if tier == "thorough":
+        # unbounded companions of two in-model theorems (TLAPS): the filtration comparison is a strict total order whenever
+        # its two ingredients are, and taking the maximum over the faces is the least monotone function above the input
+        import subprocess
+        pr = subprocess.run([os.path.join(vf.ROOT, "bin", "prove")], capture_output=True, timeout=2000)
+        lines = pr.stdout.decode(errors="replace").splitlines()
+        if pr.returncode != 0 or not lines or not all(x.startswith("PROVED") for x in lines):
+            raise vf.Infra("TLAPS proofs of specs/proofs did not check:\n" + "\n".join(lines) + pr.stderr.decode(errors="replace")[-2000:])
+        ev.parts["tlaps_proofs"] = {"modules": lines}
     # orders under several thread counts, with and without TBB; extended filtrations
     work = os.path.join(vf.BUILD, "work", "%s_traces_%d" % (PROP, os.getpid()))
     os.makedirs(work, exist_ok=True)
